@@ -159,6 +159,9 @@ class Kernel:
         self.gates: dict[tuple[int, int], Any] = {}
         self.get_scopes: dict[int, Any] = {}            # label of a suspended async lookup -> its cancel scope
         self.ctxtd_fn: Any = None
+        self.fns: dict[int, Any] = {}
+        self.freed_ids: set[int] = set()                # addresses of contexts that were dropped (`forget`)
+        self.listen_scopes: dict[int, Any] = {}
         self.deferred: dict[int, tuple[Any, dict[str, Any]]] = {}   # lookups whose coroutine exists but has not been awaited
         self.calls: dict[tuple[int, int], int] = {}
         self.tdlog: list[str] = []
@@ -477,12 +480,16 @@ class Kernel:
             fn = self.scope_fns[cmd["scope"]][cmd["me"]]
         elif "pair" in cmd and cmd["pair"] in self.pair_fns:
             fn = self.pair_fns[cmd["pair"]]     # the very same decorated function as the other call of the pair
+        elif "fn" in cmd and cmd["fn"] in self.fns:
+            fn = self.fns[cmd["fn"]]       # called before (in another context, most likely): the very same function
         else:
             late = bool(cmd.get("late")) and cmd.get("future", True) and bool(cmd["deps"])
             raw = self.build_function(params, cmd["async"], cmd.get("future", True), late=late)
             fn = ac.inject(raw)
             if "pair" in cmd:
                 self.pair_fns[cmd["pair"]] = fn
+            if "fn" in cmd:
+                self.fns[cmd["fn"]] = fn
             if late:
                 # the function is called once before the classes its (postponed) annotations name exist in its
                 # module - that call fails with NameError while resolving them, before anything is looked up -
@@ -533,14 +540,32 @@ class Kernel:
 
     # ------------------------------------------------------------------ listeners
     async def listener(self, cid: int, ctx: Any, started: Any) -> None:
-        async with ctx.resource_added.stream_events(max_queue_size=1000) as stream:
-            started.set()
-            async for ev in stream:
-                types = ",".join(str(TYPE_ID.get(t, "?")) for t in ev.resource_types)
-                ok = ev.source is ctx and ev.topic == "resource_added" and isinstance(ev.time, float)
-                self.events.append(
-                    f"ev {cid} [{types}] {ev.resource_name} {ev.resource_description or '-'} "
-                    f"{'f' if ev.is_factory else 'r'}" + ("" if ok else " BADSTAMP"))
+        with anyio.CancelScope() as self.listen_scopes[cid]:
+            async with ctx.resource_added.stream_events(max_queue_size=1000) as stream:
+                started.set()
+                async for ev in stream:
+                    types = ",".join(str(TYPE_ID.get(t, "?")) for t in ev.resource_types)
+                    ok = ev.source is ctx and ev.topic == "resource_added" and isinstance(ev.time, float)
+                    self.events.append(
+                        f"ev {cid} [{types}] {ev.resource_name} {ev.resource_description or '-'} "
+                        f"{'f' if ev.is_factory else 'r'}" + ("" if ok else " BADSTAMP"))
+        del ctx
+
+    async def forget(self, c: int) -> None:
+        """Nothing refers to context c any more (its block has been left): drop it, so that its memory can be reused."""
+        import gc
+
+        ctx = self.ctxs.pop(c, None)
+        if ctx is None:
+            return
+        sc = self.listen_scopes.pop(c, None)
+        if sc is not None:
+            sc.cancel()
+        self.ctx_ids.pop(id(ctx), None)
+        self.freed_ids.add(id(ctx))
+        del ctx
+        await anyio.wait_all_tasks_blocked()
+        gc.collect()
 
     # ------------------------------------------------------------------ main
     async def main(self) -> list[dict[str, Any]]:
@@ -580,6 +605,8 @@ class Kernel:
                 late = sorted((t, r) for (j, t, r) in self.helper_results[n_help:] if j != i)
                 res += [f"task {t} [{', '.join(r)}]" for t, r in late]
                 rec: dict[str, Any] = {"res": res, "ev": self.events[n_ev:]}
+                if op["op"] == "exit" and op.get("forget"):
+                    await self.forget(op["c"])
                 if op["op"] == "cancelget":
                     nxt = [t for (j, c, f, t) in self.gen_calls if j == i and c == op["c"]]
                     if nxt:
@@ -763,6 +790,14 @@ class Worker:
                 return ["badOp"]
             parent = kern.ctxs[cmd["parent"]] if cmd.get("parent") is not None else None
             ctx = Context(parent) if parent is not None else Context()
+            keep = []
+            while kern.freed_ids and id(ctx) not in kern.freed_ids and len(keep) < 300:
+                # a context that lands where a dropped one was (what an allocator does with one short-lived context
+                # after the other): look for it, keeping the misses alive meanwhile
+                keep.append(ctx)
+                ctx = Context(parent) if parent is not None else Context()
+            kern.freed_ids.discard(id(ctx))
+            del keep
             kern.ctxs[cmd["c"]] = ctx
             kern.ctx_ids[id(ctx)] = cmd["c"]
             return ["ok"]
